@@ -70,4 +70,6 @@ func c10r910(p *model.Prog, r *report.Result) {
 		ok = nF == 1 && nD == 1 && other == 0 && k >= 1
 	}
 	r.Check(ok, "C10.R10", fkey(capFn, "ring", "spare-slot"), p.Pos(capFn.Pos()), "FragmentNum + DeleteThreshold + 1", "the fragment ring has no spare slot beyond fragment_num + delete_threshold: the slot handed to getDeleteFrag still belongs to a segment that the last delete_threshold playlist versions list, and with cleanup_mode asap its file is removed while players still fetch it")
+	w6DeleteSlot(p, r, "C10.R11")
+	w6VideoBoundaryKey(p, r, "C10.R12")
 }
